@@ -5,7 +5,7 @@
    and WritePacketData per request, every channel capacity of the request channel, and every
    schedule ([reachable] = any interleaving, cancellation possible at any moment). *)
 From stdpp Require Import gmultiset list.
-From SX Require Import Base.Net Base.NetExec Model.Pipeline Proofs.PipelineProofs Proofs.PipelineOrder.
+From SX Require Import Base.Net Base.NetExec Model.Pipeline Model.PipelineShape Proofs.PipelineProofs Proofs.PipelineOrder.
 
 (* nothing lost, nothing duplicated, in every reachable state that was not cancelled: request ids
    held by goroutines + sitting in channel buffers + handed to the wire + logged as errors
@@ -46,6 +46,11 @@ Theorem C07_terminal : forall N fill_ok write_ok reqs,
   (~ wirefate fill_ok write_ok reqs id -> multiplicity id (wire_of n) = 0 /\ multiplicity id (errs_of n) = 1).
 Proof. exact pipeline_terminal. Qed.
 
+(* the goroutine structure of the current sources (Gen/Skeletons.v, regenerated on every run) is the
+   one the behaviours of Model/Pipeline.v were written against (Model/PipelineShape.v) *)
+Theorem C07_shape : shape_ok = true.
+Proof. vm_compute. reflexivity. Qed.
+
 (* ---- non-vacuity: a concrete run (2 workers, 5 requests: one carries an error, one fails to
    fill, one fails to write) reaches a state where done is closed, nothing was cancelled, and the
    log is as the theorems say ---- *)
@@ -68,3 +73,4 @@ Print Assumptions C07_no_panic.
 Print Assumptions C07_fates.
 Print Assumptions C07_done_after_last_write.
 Print Assumptions C07_terminal.
+Print Assumptions C07_shape.
